@@ -9,7 +9,11 @@ tolerances and values, rational kernels, outputs compared as exact rationals (th
 extrapolations divide by a non-power-of-two and are compared to 1e-12).  Float mode (F): Lean
 `Float` with the operation order of the Python source, GENERATED Float kernels (exp pairs), doubles
 as hex, 1e-12 relative.  Relational checks run on the REAL code alone: scalar-vs-tensor `select`,
-scalar-vs-tensor `insert`, insert→select round trip for every shipped matching pair.
+scalar-vs-tensor `insert`, insert→select round trip for every shipped matching pair, acceptance against the
+closed-form range [-tol, dt(N-1)+tol], integer / boolean storage against a float64 twin.
+`reconfigured` stream: the real record REACHES the (dt, N) of its `begin` line by re-assignment of its public
+attributes dt / duration / inclusive after construction (`random_history`; carried in the case as `history`, the
+driver sees the resulting configuration only) and must behave like the freshly constructed record.
 """
 from __future__ import annotations
 
@@ -45,7 +49,11 @@ SPEC = {
         "theorems are over exact reals (dt > 0, tol >= 0); the exact stream uses dyadic dt in {1/4,1/2,1,2}, dyadic times, tolerances "
         "and values, for which torch float64 arithmetic is exact; non-dyadic dt (0.3, 1.3) is a separate stream judged with the "
         "property's own tolerance (1e-6) and times kept 1e-3 away from every decision boundary — partial (float)",
-        "storage dtype float64, observation shape (P,), CPU; dtype conversion of inserted values and autograd are not modelled",
+        "storage dtype float64, observation shape (P,), CPU; dtype conversion of inserted values and autograd are not modelled; integer "
+        "and boolean storage is covered by a twin relation only (same calls on a float64 record holding the same numbers, sample-selecting "
+        "kernels for insert / boolean storage)",
+        "a record that reaches its step time and size by re-assignment of dt / duration / inclusive after construction is judged by the "
+        "specification of the resulting (dt, N): the driver is told the resulting configuration only",
         "one storage column per element (a scalar-time call acts identically on every column; a tensor-time call addresses one column per element)",
         "the same offset is used for insert and select in the round trip (their defaults differ: 0 and 1)",
     ],
@@ -511,7 +519,8 @@ def float_cases(rng, count):
 
 
 def random_cases(rng, count, big=False):
-    """exact mode: random op sequences, 15% out-of-range times, large tolerances and offsets included"""
+    """exact mode: random op sequences, 15% out-of-range times, large tolerances and offsets included; 10% of the
+    times miss the tolerance band of a grid point by 2^-14 .. 2^-20 (still exact in float64)"""
     out = []
     for c in range(count):
         dt = rng.choice([0.25, 0.5, 1.0, 2.0])
@@ -532,6 +541,8 @@ def random_cases(rng, count, big=False):
                 return dt * k
             if r < 0.5:
                 return dt * k + rng.choice([-1, 1]) * tol
+            if r < 0.6:      # just outside the tolerance of a grid point by a hair that is small RELATIVE to the time as well
+                return dt * k + rng.choice([-1, 1]) * (tol + 2.0 ** -rng.choice([14, 16, 18, 20]))
             return min(max(dt * k + rng.randint(-15, 15) * dt / 16, -tol), dt * (n - 1) + tol)
 
         for _ in range(rng.randint(6, 14)):
@@ -966,6 +977,117 @@ def relational(ctx, ex: Exploration, count: int):
     ex.extra["relational_checks_on_real_code"] = stats
 
 
+SELECTING_INTERP = ["previous", "next", "nearest"]
+SELECTING_EXTRAP = ["previous", "next", "nearest", "neighbors"]
+
+
+def make_record_dtype(n, ptr, rows, dt, dtype, history=None):
+    """as `make_record`, storage of another dtype (integer-valued rows), via public calls"""
+    P = len(rows[0])
+    owner = inferno.Module()
+    if history is None:
+        RecordTensor.create(owner, "rec", float(dt), max(float(dt) * (n - 1.5), 0.0), torch.zeros(P, dtype=dtype), inclusive=True)
+        rt = owner.rec
+    else:
+        dt0, dur0, incl0 = history["create"]
+        RecordTensor.create(owner, "rec", float(dt0), float(dur0), torch.zeros(P, dtype=dtype), inclusive=bool(incl0))
+        rt = owner.rec
+        for attr, v in history["steps"]:
+            if attr == "push":
+                for j in range(int(v)):
+                    rt.push(torch.ones(P, dtype=dtype))
+            else:
+                setattr(rt, attr, float(v) if attr != "inclusive" else bool(v))
+    assert rt.recordsz == n and rt.dt == float(dt) and rt.value.dtype == dtype, (rt.recordsz, n, rt.dt, dt, rt.value.dtype)
+    if (ptr - rt.pointer) % n:
+        rt.incr((ptr - rt.pointer) % n)
+    for i in range(n):
+        rt.write(torch.tensor(rows[i], dtype=dtype), offset=(ptr - i) % n, inplace=True)
+    assert rt.pointer == ptr and torch.equal(rt.value, torch.tensor(rows, dtype=dtype))
+    return owner, rt
+
+
+def dtype_twins(ctx, ex: Exploration, count: int):
+    """Which samples are hit and what is interpolated from them does not depend on the storage dtype: a record with
+    integer (int64 / int32: spike counts) or boolean (spikes) storage and a float64 twin holding the same numbers
+    (the twin is what the specification streams judge) are driven with the same select / insert calls.
+    select: every kernel on integer storage (result compared by value, 1e-6 relative: the default float dtype is
+    float32), the three sample-selecting kernels on boolean storage; insert: the sample-selecting extrapolations
+    (they write the observation itself), storage compared by value afterwards."""
+    rng = ctx.rng
+    stats = {"select": 0, "insert": 0, "by_dtype": {}}
+    found = 0
+    for c in range(count):
+        dtype = rng.choice([torch.int64, torch.int32, torch.int64, torch.bool])
+        dt = rng.choice([0.25, 0.5, 1.0, 2.0])
+        n = rng.choice([2, 3, 4, 5, 8])
+        ptr = rng.randrange(n)
+        P = rng.choice([1, 2, 3])
+        tol = rng.choice([0.0, 0.125, 0.0625, 1e-6])
+        if dtype == torch.bool:
+            rows = [[float(rng.random() < 0.5) for _ in range(P)] for _ in range(n)]
+        else:
+            rows = [[float(rng.randint(-40, 40)) for _ in range(P)] for _ in range(n)]
+        times = [float(t) for t in sweep_times(dt, n, tol if tol != 1e-6 else 0.0)]
+        off = rng.choice([0, 1, -1, 2, n])
+        const = rng.choice([0.5, 1.0, 2.0, 20.0])
+        hist = random_history(rng, dt, n) if c % 3 == 0 else None
+        sd = str(dtype).replace("torch.", "")
+        stats["by_dtype"][sd] = stats["by_dtype"].get(sd, 0) + 1
+        desc = {"storage_dtype": sd, "n": n, "ptr": ptr, "dt": dt, "tol": tol, "rows": rows, "offset": off, "const": const}
+        if hist is not None:
+            desc["history"] = hist
+
+        def report(rel, what, extra):
+            nonlocal found
+            found += 1
+            if found <= 3:
+                ex.findings.append(Finding(kind="spec", key=f"C02:relation:{rel}:{extra.get('kernel', '-')}", what=what,
+                                           case={"relation": rel, **desc, **extra}))
+
+        def attempt(fn):
+            try:
+                return fn(), None
+            except (ValueError, RuntimeError, TypeError, IndexError, NotImplementedError) as e:
+                return None, type(e).__name__
+
+        _of, rf = make_record(n, ptr, rows, dt, hist)
+        _oi, ri = make_record_dtype(n, ptr, rows, dt, dtype, hist)
+        for _ in range(4):
+            t = rng.choice(times)
+            iname = rng.choice(SELECTING_INTERP if dtype == torch.bool else list(INTERP))
+            for tens in (False, True):
+                time = torch.full((P,), t, dtype=T64) if tens else t
+                vf, ef = attempt(lambda: rf.select(time, INTERP[iname], tolerance=tol, offset=off, interp_kwargs=_kw(iname, const)))
+                vi, ei = attempt(lambda: ri.select(time, INTERP[iname], tolerance=tol, offset=off, interp_kwargs=_kw(iname, const)))
+                ex.evaluations += 1
+                stats["select"] += 1
+                if ef != ei or (ef is None and not close_t(vi.to(T64), vf, 1e-6)):
+                    report("storage_dtype_select",
+                           f"select({t}, {iname}, {'tensor' if tens else 'scalar'} time) on {sd} storage gives {ei or vi.tolist()} "
+                           f"but {ef or vf.tolist()} on the float64 twin holding the same numbers",
+                           {"kernel": iname, "t": t, "tensor_time": tens})
+        ename = rng.choice(SELECTING_EXTRAP)
+        t = rng.choice(times)
+        obs = [float(rng.random() < 0.5) if dtype == torch.bool else float(rng.randint(-40, 40)) for _ in range(P)]
+        for tens in (False, True):
+            for ip in (True, False):
+                _of, rf = make_record(n, ptr, rows, dt, hist)
+                _oi, ri = make_record_dtype(n, ptr, rows, dt, dtype, hist)
+                time = torch.full((P,), t, dtype=T64) if tens else t
+                _, ef = attempt(lambda: rf.insert(torch.tensor(obs, dtype=T64), time, EXTRAP[ename], tolerance=tol, offset=off, inplace=ip))
+                _, ei = attempt(lambda: ri.insert(torch.tensor(obs, dtype=dtype), time, EXTRAP[ename], tolerance=tol, offset=off, inplace=ip))
+                ex.evaluations += 1
+                stats["insert"] += 1
+                if ef != ei or not close_t(ri.value.to(T64), rf.value, 0.0) or ri.pointer != rf.pointer:
+                    report("storage_dtype_insert",
+                           f"insert({obs}, t={t}, {ename}, {'tensor' if tens else 'scalar'} time, inplace={ip}) on {sd} storage: "
+                           f"{ei or ri.value.tolist()} but {ef or rf.value.tolist()} on the float64 twin",
+                           {"kernel": ename, "t": t, "tensor_time": tens, "inplace": ip, "obs": obs})
+        ex.nontriv(("dtype", c, sd, n, ptr, dt))
+    ex.extra["storage_dtype_twins"] = stats
+
+
 def nondyadic_probe(ctx, ex):
     """information only (partial (float)): (i) nominal grid points reached by ACCUMULATING dt (t += dt) with
     tolerance 0 for non-dyadic dt — how many does the real code treat as off-grid (interpolation invoked)?
@@ -1036,6 +1158,7 @@ def explore(ctx) -> Exploration:
     cases += sweep + ins + flt + rnd + nd + rec
     per_stream = run_cases(ctx, cases, ex)
     relational(ctx, ex, 400 if not thorough else 8000)
+    dtype_twins(ctx, ex, 150 if not thorough else 2500)
     ex.extra["streams"] = per_stream
     ex.extra["non_dyadic"] = {"label": "partial (float)", **per_stream.get("non_dyadic", {}),
                               "judged_with": "tolerance 1e-6 (the property's), values to 1e-9 relative",
@@ -1050,7 +1173,8 @@ def explore(ctx) -> Exploration:
                "record size of their `begin` line by re-assignment of dt / duration / inclusive after construction — one attribute only, all "
                "three with a chosen one last, random order, random intermediate values, pushes in between — judged by the same specification "
                "of the resulting dt and N); plus relational checks on the real "
-               "code (scalar vs tensor select/insert, insert-select round trip). A case is non-trivial when some select returned values "
+               "code (scalar vs tensor select/insert, insert-select round trip, acceptance against the closed-form range, half of them on re-assigned "
+               "records; int64/int32/bool storage against a float64 twin). A case is non-trivial when some select returned values "
                "or some insert succeeded on the real object; distinct = distinct protocol text" % (5 if not thorough else 8))
     ex.samples = [sweep[5]["ops"][:6], ins[3]["ops"], flt[0]["ops"][:5], nd[0]["ops"][:4],
                   {"history": rec[0]["history"], "ops": rec[0]["ops"][:5]}]
